@@ -51,8 +51,20 @@ def decorate(t, rng):
     return O.newick(feats), expect
 
 
+AMBIGUOUS = ["1", "2", "12", "a", "b", "ab", "11", "21", "121"]
+
+
 def enum_fails(t, seed):
     rng = random.Random(seed)
+    if seed % 3 == 0:
+        # leaf names whose concatenations collide (1, 2, 12 / a, b, ab): numbered leaves reach this as soon as there are twelve of them
+        ls = CL._leaves(t)
+        if len(ls) <= len(AMBIGUOUS):
+            mp = dict(zip(ls, rng.sample(AMBIGUOUS[:max(3, len(ls))], len(ls))))
+
+            def ren(x):
+                return mp[x] if isinstance(x, str) else tuple(ren(c) for c in x)
+            t = ren(t)
     newick, expect = decorate(t, rng)
     tree = Tree(newick, format=1)
     leaves = CL._leaves(t)
